@@ -434,6 +434,36 @@ def gen_observe_seeded(r, k):
     return dict(kind="observe", pipe=pname, spec=spec, calls=calls, input_class="seeded_stochastic")
 
 
+def gen_observe_processes(r, k):
+    """The dask path with the multi-PROCESS scheduler: every run receives its processor through pickle (the custom
+    __getstate__ / __setstate__ of ModelGroup, the default protocol for everything else) before Processor.replace copies it.
+    Caller objects with a history; deterministic pipelines (and, every other case, a seeded stochastic one: each worker
+    process has its own generator and every run is seeded); followed by a loop call on the same caller objects."""
+    if k % 2 == 0:
+        pname, spec, keys, lkey, has_fail = gen_spec(r, ["mem_mut", "two_groups", "mut_st", "st_mut", "a2p_st"][(k // 2) % 5])
+        pools = {key: DYADIC for key in keys}
+        seed = None
+    else:
+        pname = sorted(seeded_pipelines())[(k // 2) % 4]
+        spec, pools = gen_seeded_spec(r, pname)
+        keys = sorted(pools)
+        seed = r.randrange(0, 100000)
+    mode = ["product", "sequential", "custom"][k % 3]
+    ks = r.sample(keys, min(r.choice([1, 2]), len(keys)))
+    if mode == "custom":
+        params = [dict(key=key, values=[r.choice(pools[key]) for _ in range(3)]) for key in ks]
+    else:
+        params = [dict(key=key, values=r.sample(pools[key], 2)) for key in ks]
+    first = dict(parameters=params, mode=mode, with_dask=True, scheduler="processes", pipeline_seed=seed,
+                 ambient=None if seed is None else r.randrange(1, 100000))
+    second = copy.deepcopy(first)
+    second.update(with_dask=False, scheduler=None)
+    for q in second["parameters"]:
+        q["values"] = list(reversed(q["values"]))
+    return dict(kind="observe", pipe=pname, spec=spec, calls=[first, second],
+                input_class="seeded_stochastic" if seed is not None else "plain")
+
+
 def gen_fitness_seeded(r, k):
     """fitness() of a calibration with a pipeline_seed and a stochastic model: the same candidate gives the same fitness -
     that of the standalone exposures under that seed - wherever it comes in the sequence; 1-3 processors."""
@@ -612,7 +642,8 @@ def viol_beh(c, o, clause) -> Violation:
                 case["calls"] = c["calls"][: i + 1]     # shrink: nothing after the first offending call
                 break
         cfg = c["calls"][obs.get("call", 0)]
-        sig = dict(clause=clause, path="dask" if cfg["with_dask"] else "sequential_loop",
+        sig = dict(clause=clause, path=("dask_processes" if cfg.get("scheduler") == "processes" else "dask")
+                   if cfg["with_dask"] else "sequential_loop",
                    input=c.get("input_class", "plain"))
         if c.get("container"):
             sig["container"] = c["container"]
@@ -785,6 +816,7 @@ def gen_cases(ctx: Ctx, ng, no, nf, salt="cases", ns=None):
     cases += [gen_observe_seeded(r2, k) for k in range(ns)]
     cases += [gen_fitness_seeded(r2, k) for k in range(max(4, ns // 3))]
     cases += [gen_calibration_seeded(r2, k) for k in range(max(2, ns // 8))]
+    cases += [gen_observe_processes(r2, k) for k in range(max(4, ns // 6))]
     return cases
 
 
